@@ -305,6 +305,28 @@ ADDED = {
                note_replace='Not decided: which separators remain on a shared line; CR-LF files; byte-level result in general.'),
     'C20': dict(text=' A raw write() of the content must have its result compared with the byte count (short writes are failures).'),
 }
+ADDED2 = {
+    'C01': ' E7 treats getenv() results and environ as caller data and uses write summaries of callees regardless of const.',
+    'C02': ' A4T: the terminator after strncpy/memcpy sits at an index <= the copy count; uses through aliases of local arrays.',
+    'C03': ' B5 also: no loop on the exec path retries depending on errno.',
+    'C04': ' R6: error logging is switched back on only where it was found on. R7: a copy of the output argument into a fixed '
+           'address field is offered the whole field.',
+    'C05': ' L5: per-tag name/argument buffers are rebuilt on every way round the expansion loop.',
+    'C06': ' S1: each store function writes its own field of the per-call record only.',
+    'C08': ' T9 output without argument gets the empty argument; T11 string options stored whole; T12 snoopyctl conf prints values '
+           'unchanged; T7 over the INI parser and its helpers, inline-comment scan before the trim; T5 a section header forgets '
+           'the remembered option name.',
+    'C10': ' FK5: the mutex tolerates a second lock by its owner.',
+    'C13': ' P1: an initialiser entry that continues across a change of presence condition (missing comma) is a violation.',
+    'C14': ' U3: the whole list is parsed (strdup of the argument) and the list parser\'s count matches its entries.',
+    'C15': ' X1: only pid 0 ends the walk; X4: an empty-string list terminator must not be a possible item.',
+    'C16': ' O6: the strings of the environment are only read.',
+    'C18': ' Q1: the preload file is read whole (buffer sized from the measured file size). Q8: written-before-read and loop progress in the CLI code.',
+    'C19': ' Q1/Q8 as for C18.',
+}
+for _pid, _t in ADDED2.items():
+    ADDED.setdefault(_pid, {})
+    ADDED[_pid]['text'] = ADDED[_pid].get('text', '') + _t
 for _pid, _a in ADDED.items():
     CLAIMED[_pid]['text'] += _a.get('text', '')
     if 'note_replace' in _a:
